@@ -138,8 +138,7 @@ Section P7.
         * cbn [pchmap map fst snd]. rewrite dict_post_bin.
           inversion IH as [|? ? Hl H2]; subst. inversion H2 as [|? ? Hr _]; subst. simpl in Hl, Hr, Qc.
           apply andb_true_iff in Qc. destruct Qc as [Ql Qc]. apply andb_true_iff in Qc. destruct Qc as [Qr _].
-          destruct (same_prior V _ _); rewrite !bn_node, smap_bn1; cbn [bnch chmap map fst snd bn1];
-            rewrite (Hl Ql), (Hr Qr); reflexivity.
+          rewrite !bn_node, smap_bn1; cbn [bnch chmap map fst snd bn1]. rewrite (Hl Ql), (Hr Qr). reflexivity.
         * assert (R : forall a, dict_post V cf (SNode (KBin o) ((ln, l) :: (rn, r) :: x :: t) asr)
                              (pchmap V f (dict_filter V falsy cf) (as_instance V cf) (dict_post V cf) ((ln, l) :: (rn, r) :: x :: t)) a
                            = SNode (KBin o) (pchmap V f (dict_filter V falsy cf) (as_instance V cf) (dict_post V cf) ((ln, l) :: (rn, r) :: x :: t)) a)
